@@ -123,6 +123,26 @@ def features(prog):
     return list(dict.fromkeys(f)) or ["plain"]
 
 
+def canon_t(t):
+    if t["k"] in ("list", "set"):
+        return "%s<%s>" % (t["k"], canon_t(t["v"]))
+    if t["k"] == "map":
+        return "map<%s,%s>" % (canon_t(t["key"]), canon_t(t["v"]))
+    return t["n"]
+
+
+def lit_key(prog):
+    """the (const | default) x type a program of the focus "consts" exercises, '' for its base program"""
+    o = json.loads(prog)
+    for c in o["consts"]:
+        if c["name"] == "MAX":
+            return "literal/const/" + canon_t(c["t"])
+    for s in o["structs"]:
+        if s["name"] == "Holder" and s["fields"]:
+            return "literal/default/" + canon_t(s["fields"][0]["t"])
+    return ""
+
+
 def run(ctx):
     thorough = ctx.tier == "thorough"
     ctx.rule = ("(a) valid programs: well-formed abstract programs from IDL.tla (random walks of 14 steps, with and without "
@@ -171,8 +191,24 @@ def run(ctx):
     uses = list(dict.fromkeys(s[5:] for s in r.printed if s.startswith("PROG ")))
     ctx.extra["focus_uses_programs"] = len(uses)
     focusprogs += uses
+    # a constant, or a field default, of every type of the pool with every literal of IDL!Lits (focus "consts", exhaustive in the
+    # model; the quick tier compiles a seeded sample of it)
+    r = ctx.tlc_must_hold("IDL", "i.cfg", cfg_text=idl_cfg("FALSE", 1, "FALSE", focus="consts").replace("CHECK_DEADLOCK", "CONSTRAINT Bounded\nCHECK_DEADLOCK"),
+                          workers=4, timeout=1200)
+    lits = [q for q in dict.fromkeys(s[5:] for s in r.printed if s.startswith("PROG ")) if lit_key(q)]
+    ctx.extra["focus_consts_programs_in_model"] = len(lits)
+    if not thorough:
+        random.Random(old * 31 + 7).shuffle(lits)
+        bytype = {}
+        for q in lits:
+            bytype.setdefault(lit_key(q), []).append(q)
+        lits = [qs[0] for _, qs in sorted(bytype.items())]      # one literal per (const | field) x type ...
+        lits = [q for i, q in enumerate(lits) if (i + old) % 2 == 0]   # ... and of those every other one, by seed
+    ctx.extra["focus_consts_programs"] = len(lits)
+    litkeys = {q: lit_key(q) for q in lits}
+    focusprogs += lits
     focusprogs = list(dict.fromkeys(focusprogs))
-    ctx.extra["focus_enumrefs_programs"] = len(focusprogs) - len(uses)
+    ctx.extra["focus_enumrefs_programs"] = len(focusprogs) - len(uses) - len(lits)
     # every invalidating edit applied to a program in which all of them are applicable (focus "breaks", exhaustive)
     r = ctx.tlc_must_hold("IDL", "i.cfg", cfg_text=idl_cfg("FALSE", 1, "TRUE", focus="breaks").replace("CHECK_DEADLOCK", "CONSTRAINT Bounded\nCHECK_DEADLOCK"),
                           workers=4, timeout=600)
@@ -225,6 +261,8 @@ def run(ctx):
             feat[d] = [b[5:]]
         elif b != "none":
             feat[d] = ["defect:" + b]
+        elif allp[i] in litkeys:
+            feat[d] = [litkeys[allp[i]]]
     # the repository's own IDL files as extra valid inputs
     extra = []
     td = os.path.join(REPO, "compiler/testdata/idl")
